@@ -325,12 +325,28 @@ func trav(r *Run, focus string) {
 		}
 		return r.RandID()
 	}
+	sameHostTwins := 0
 	for i := 0; i < N; i++ {
 		n := &tnode{idx: i, addr: mkAddr()}
 		n.astr = addrKey(n.addr)
 		n.listID = mkID()
 		if dupIDs && i > 0 && r.Rng.Intn(3) == 0 {
-			n.listID = tw.nodes[r.Rng.Intn(i)].listID
+			twin := tw.nodes[r.Rng.Intn(i)]
+			n.listID = twin.listID
+			if r.Rng.Intn(2) == 0 {
+				// the twin lives on the same host, another port
+				a := twin.addr
+				for {
+					a.Port = 1 + r.Rng.Intn(65535)
+					if k := addrKey(a); !usedAddr[k] {
+						usedAddr[k] = true
+						break
+					}
+				}
+				n.addr = a
+				n.astr = addrKey(a)
+				sameHostTwins++
+			}
 		}
 		n.respID = n.listID
 		if allHonest {
@@ -347,6 +363,9 @@ func trav(r *Run, focus string) {
 		}
 		tw.nodes = append(tw.nodes, n)
 		tw.byAddr[n.astr] = n
+	}
+	if sameHostTwins > 0 {
+		r.Probe("same-id-same-host-twins")
 	}
 	// victim addresses listed under many ids; filtered addresses
 	var victims []*tnode
@@ -744,11 +763,11 @@ func trav(r *Run, focus string) {
 				}
 				if a.Id.Ok {
 					d := dist(a.Id.Value.AsByteArray(), tw.target)
-					if cmpBytes(d, far) < 0 {
+					if cmpBytes(d, far) <= 0 { // only contacts *farther* than the farthest member may be left
 						if stale {
-							r.Violate("stale-stall-offer-after-addnodes", "a consumer blocked on Stalled() received the signal with a full result set although contact %s, handed over by an AddNodes call that had returned, is strictly closer than the farthest member and was never queried", a)
+							r.Violate("stale-stall-offer-after-addnodes", "a consumer blocked on Stalled() received the signal with a full result set although contact %s, handed over by an AddNodes call that had returned, is not farther than the farthest member and was never queried", a)
 						} else {
-							r.Violate("stalled-with-closer-candidate", "Stalled() fired with a full result set, yet unqueried contact %s is strictly closer than the farthest member", a)
+							r.Violate("stalled-with-closer-candidate", "Stalled() fired with a full result set, yet unqueried contact %s is not farther than the farthest member", a)
 						}
 						return
 					}
@@ -877,7 +896,7 @@ func trav(r *Run, focus string) {
 			excus := true
 			tw.mu.Lock()
 			for _, a := range tw.learned[k].ami {
-				if nfOK(a) && a.Id.Ok && cmpBytes(dist(a.Id.Value.AsByteArray(), tw.target), far) < 0 {
+				if nfOK(a) && a.Id.Ok && cmpBytes(dist(a.Id.Value.AsByteArray(), tw.target), far) <= 0 {
 					excus = false
 				}
 			}
